@@ -144,6 +144,8 @@ def _task_actisense(args):
     dec, enc = NMEA2000Decoder(), NMEA2000Encoder()
     msg = clientkit.heading_message(5)
     bad, n = [], 0
+    if msg is None or msg.PGN != 127250:
+        return 1, [("public_roundtrip:ebyte", "heading frame 0x09F11201", None if msg is None else msg.PGN, 127250)]
     for src in srcs:
         for dst in range(256):
             for prio in range(8):
